@@ -191,6 +191,9 @@ func (c *certStatusChecker) checkLastCertificateFromAgglayer(ctx context.Context
 	if err != nil {
 		return fmt.Errorf("recovery: error processing initial status: %w", err)
 	}
+	if action.action == InitialStatusActionInsertNewCert {
+		action.cert = initialStatus.withPreviousLER(action.cert)
+	}
 	return c.executeInitialStatusAction(ctx, action, initialStatus.LocalCert)
 }
 
